@@ -74,7 +74,7 @@ class HistoryMachine(RuleBasedStateMachine):
         return self.U[ki % len(self.U)]
 
     def do(self, step):
-        if self.DRAWS is not None and self.world.kind in ("log16", "log8") and "draws" not in step and step["op"] not in ("merge", "save_load", "query"):
+        if self.DRAWS is not None and self.world.kind in ("log16", "log8") and "draws" not in step and step["op"] not in ("merge", "save_load", "query", "bad_query"):
             raise AssertionError("log step without draws")
         self.trace["steps"].append(step)
         try:
